@@ -35,6 +35,40 @@ def main() -> int:
         # partial run: only judge the stable tests that were collected
         stable &= seen
     missing = sorted(stable - passed)
+    # Under heavy machine load a few subprocess/timeout-sensitive tests flake: re-run the ones that
+    # did not pass, in isolation (no xdist), up to twice, before judging.
+    if missing and len(missing) <= 40 and not os.environ.get("RUN_SUITE_NO_RERUN"):
+        def nodeid(tid: str) -> str | None:
+            cls, _, name = tid.partition("::")
+            if name in ("mypy", "mypy-status", "ruff", "ruff::format"):
+                return None
+            parts = cls.split(".")
+            mod = []
+            while parts and not parts[0][:1].isupper():
+                mod.append(parts.pop(0))
+            path = "/".join(mod) + ".py"
+            return "::".join([path, *parts, name])
+        for _attempt in range(2):
+            ids = {m: nodeid(m) for m in missing}
+            todo = [v for v in ids.values() if v]
+            if not todo:
+                break
+            fd2, xml2 = tempfile.mkstemp(suffix=".junit.xml"); os.close(fd2)
+            subprocess.run(["/venv/bin/python", "-m", "pytest", "-q", "-p", "no:cacheprovider", "-o", "addopts=", "--timeout=900", f"--junitxml={xml2}", *todo],
+                           cwd=repo, env=env, stdout=subprocess.DEVNULL, stderr=subprocess.DEVNULL)
+            try:
+                for tc in ET.parse(xml2).getroot().iter("testcase"):
+                    tid = f"{tc.get('classname')}::{tc.get('name')}"
+                    if not any(ch.tag in ("failure", "error", "skipped") for ch in tc):
+                        passed.add(tid)
+            except Exception:
+                pass
+            finally:
+                os.unlink(xml2)
+            missing = sorted(stable - passed)
+            if not missing:
+                break
+        print(f"(after isolated re-runs of load-sensitive tests: stable_not_passed={len(missing)})")
     print(f"pytest exit={p.returncode} seen={len(seen)} passed={len(passed)} stable_expected={len(stable)} stable_not_passed={len(missing)}")
     for m in missing[:80]:
         print("  NOT-PASSED", m, "(not run)" if m not in seen else "")
